@@ -12,6 +12,27 @@ let rec z_of_pos_int n = if n = 1 then XH else if n land 1 = 0 then XO (z_of_pos
 let () = try while true do
   let line = input_line stdin in
   match toks line with [] -> () | kind :: rest ->
+  if kind = "PGSB" || kind = "BIL" then begin
+    (* PGSB maxIters tol m A nD D rhs nPart part..   -> model of PGSImpulseSolver::solveBilateral: "OK converged its | pi"
+       BIL  tol      m A nD D rhs nPart part.. pi[m] -> "<bilateral_check tol>"  (certificate on a given impulse) *)
+    let q = ref rest in
+    let nx () = match !q with x :: r -> q := r; x | [] -> failwith "args" in
+    let nf () = float_of_string (nx ()) in let ni () = int_of_string (nx ()) in
+    let rec many n f = if n <= 0 then [] else let v = f () in v :: many (n - 1) f in
+    let maxIters = if kind = "PGSB" then ni () else 0 in
+    let tol = nf () in let m = ni () in
+    let a = many m (fun () -> many m nf) in
+    let nd = ni () in let d0 = many nd nf in let d = if nd = 0 then many m (fun () -> 0.0) else d0 in
+    let rhs = many m nf in let part = many (ni ()) (fun () -> nat_of_int (ni ())) in
+    if kind = "PGSB" then begin
+      let ((((conv, its), pi), _), _) = pgs_bilateral fops (nat_of_int maxIters) part a d rhs tol 1.2 in
+      Printf.printf "OK %d %d | " (if conv then 1 else 0) (int_of_nat its); List.iter pf pi
+    end else begin
+      let pi = many m nf in
+      Printf.printf "%d" (if bilateral_check fops tol part a d rhs pi then 1 else 0)
+    end;
+    print_newline ()
+  end else
   let q = ref rest in
   let nx () = match !q with x :: r -> q := r; x | [] -> failwith "args" in
   let nf () = float_of_string (nx ()) in
